@@ -103,11 +103,14 @@ def bspline_shape(D, tier):
 
 # ---------------------------------------------------------------------------
 class Entry:
-    def __init__(self, name, inputs, fn, note=""):
+    def __init__(self, name, inputs, fn, note="", storage=None):
         self.name = name
         self.inputs = inputs  # OrderedDict name -> float64 leaf tensor (or nn.Parameter)
         self.fn = fn  # () -> Tensor | sequence | dict
         self.note = note
+        # optional: name -> plain tensor aliasing the storage of the input (used for the +-h perturbation when the
+        # leaf is a data object (ImageBatch / FlowFields) whose own indexing goes through __torch_function__)
+        self.storage = storage or {}
 
 
 ENTRIES = OrderedDict()  # name -> (builder, dims)
@@ -209,7 +212,7 @@ def check_entry(name, D, tab, tier):
     for (iname, t), g in zip(inputs, grads):
         n = t.numel()
         gad = np.zeros(n) if g is None else g.detach().double().reshape(-1).numpy().copy()
-        flat = t.data.view(-1)
+        flat = ent.storage[iname].view(-1) if iname in ent.storage else t.data.view(-1)
 
         def at(j, x):
             x0 = float(flat[j])
@@ -589,9 +592,10 @@ OTHER_GRID_KINDS = ("Translation", "EulerRotation", "AffineTransform", "DDF", "S
 def _mk_other_grid_entries():
     for kind in OTHER_GRID_KINDS:
         for gname in ("own", "same-domain", "other-domain", "other-flag"):
-            for view in ("disp", "flow"):
-                if view == "disp" and gname == "own":
-                    continue  # transform/<kind>/disp
+            for view in ("disp",):
+                # flow(g) returns a FlowFields data object, which by documented design is constructed as a NEW LEAF
+                # (DataTensor requires_grad semantics); only disp(g) is an operation optimised through.  "own" repeats
+                # transform/<kind>/disp on purpose (explicit grid argument).
 
                 def b(D, tab, tier, kind=kind, gname=gname, view=view):
                     t = _transform(kind, D, tier, tab)
@@ -638,49 +642,9 @@ def _mk_linked_inverse_entries():
 _mk_linked_inverse_entries()
 
 
-@entry("data/FlowFields/tensor+sample+axes")
-def _(D, tab, tier):
-    from deepali.data import FlowFields
-
-    g = _grid(D, tier, small=True)
-    u = leaf(smooth_field(D, tuple(g.shape), tab, 90, amp=0.1))
-    og = _other_grids(g)
-
-    def f():
-        ff = FlowFields(u * 1.0, grid=g)
-        return ff.tensor(), ff.sample(og["same-domain"]).tensor(), ff.sample(og["other-domain"]).tensor(), ff.axes("world").tensor()
-
-    return Entry("FlowFields", OrderedDict(data=u), f)
-
-
-@entry("data/FlowFields/exp+warp_image")
-def _(D, tab, tier):
-    from deepali.data import FlowFields, ImageBatch
-
-    g = _grid(D, tier, small=True)
-    u = leaf(smooth_field(D, tuple(g.shape), tab, 91, amp=0.1))
-    img = leaf(image(tuple(g.shape), tab, 92, C_=1))
-
-    def f():
-        ff = FlowFields(u * 1.0, grid=g)
-        return ff.exp(steps=2).tensor(), ff.warp_image(ImageBatch(img * 1.0, grid=g)).tensor()
-
-    return Entry("FlowFields", OrderedDict(data=u, image=img), f)
-
-
-@entry("data/ImageBatch/tensor+sample+resize")
-def _(D, tab, tier):
-    from deepali.data import ImageBatch
-
-    g = _grid(D, tier, small=True)
-    x = leaf(image(tuple(g.shape), tab, 93, C_=2))
-    og = _other_grids(g)
-
-    def f():
-        im = ImageBatch(x * 1.0, grid=g)
-        return im.tensor(), im.sample(og["other-domain"]).tensor(), im.resize(tuple(int(n) + 2 for n in g.size())).tensor()
-
-    return Entry("ImageBatch", OrderedDict(data=x), f)
+# NOTE: the data-object API (deepali.data ImageBatch / FlowFields) is deliberately NOT in the menu: data/*.py is not among
+# the anchor files of C20 and these objects are constructed and re-wrapped as new leaves by design (see triage/C20.md,
+# "Observations outside the statement").
 
 
 # ---- core image / flow functions ------------------------------------------------
